@@ -9,7 +9,7 @@ wt = "/tmp/mut-%s-%s" % (pid, n)
 print(f"""You are a software engineer asked to write a REALISTIC BUG: a small change to an open-source project that breaks one stated property of it while still compiling and passing the project's existing test suite. This is for evaluating a verification tool, which you know nothing about and must not look for: do not read anything under /verif or /root, use only the project itself.
 
 PROJECT: Quiver, a statically-typed functional language (Rust workspace: nom parser, type checker + bytecode compiler in quiver-compiler, stack VM with Erlang-style processes in quiver-core/src/executor.rs, workers/environment/REPL in quiver-environment, CLI in quiver-cli, standard library in std/*.qv, language reference docs/spec.md, tests in quiver-tests/tests/*.rs).
-WORK ONLY IN YOUR OWN SCRATCH WORKTREE: create it with `git -C /repo worktree add {wt} HEAD` and work in {wt} (never edit /repo itself). Build/test there: `cargo build --offline -p quiver-cli` (gives {wt}/target/debug/quiv; `quiv run -e '<program>'` evaluates a program whose value must be a function: wrap as `#{{ ... }}`; the REPL test harness in quiver-tests/tests/common.rs evaluates plain programs), `cargo nextest run --workspace --no-fail-fast --offline` runs the whole suite (975 tests, all pass at HEAD; a few minutes including the build).
+Never use `git stash` (the stash is shared between worktrees and other engineers are working in sibling worktrees); to compare with the unmodified code use `git diff > /tmp/my.diff && git checkout -- <files>` and `git apply /tmp/my.diff` to restore. The machine is heavily loaded: the test `iter test_filter_long_skip_run_is_tail_recursive` has a 5 s limit and may time out under load even at HEAD - re-run it alone if it is the only failure. WORK ONLY IN YOUR OWN SCRATCH WORKTREE: create it with `git -C /repo worktree add {wt} HEAD` and work in {wt} (never edit /repo itself). Build/test there: `cargo build --offline -p quiver-cli` (gives {wt}/target/debug/quiv; `quiv run -e '<program>'` evaluates a program whose value must be a function: wrap as `#{{ ... }}`; the REPL test harness in quiver-tests/tests/common.rs evaluates plain programs), `cargo nextest run --workspace --no-fail-fast --offline` runs the whole suite (975 tests, all pass at HEAD; a few minutes including the build).
 
 PROPERTY TO BREAK ({pid}: {p['title']}):
 {p['statement']}
